@@ -70,6 +70,9 @@ STEMS = {
 CODE_FLOOR = 29          # half of the 58 codes confirmed by hand
 
 
+from ..facts import c_int_literal  # noqa: E402
+
+
 def result_codes(prog, info):
     """CIF_* object-like macros of cif.h's doc group `return_codes`, excluding the CIF_TRAVERSE_* directives."""
     import os
@@ -93,8 +96,11 @@ def result_codes(prog, info):
             if m.get("fnlike") or not (start <= m["line"] <= end):
                 continue
             body = m["body"].strip()
-            if re.match(r"^-?\d+$", body):
-                codes[name] = int(body)
+            v = c_int_literal(body)
+            if v is not None:
+                codes[name] = v
+            elif body and not body.startswith('"'):
+                raise Broken("result code %s is not defined by an integer literal (%r): cannot be compared with the table" % (name, body))
     return codes, (start, end)
 
 
